@@ -66,7 +66,7 @@ class Labeling:
         elif kind == "shift":
             self.labels = [10 + 7 * i for i in range(U + 1)]
         else:
-            self.labels = ["a", "ab", "b", "ba", "c", "d", "e", "f"][:U + 1]
+            self.labels = ["", "a", "ab", "b", "ba", "c", "d", "e"][:U + 1]
         assert self.labels == sorted(self.labels)
         self.rank = {x: i for i, x in enumerate(self.labels)}
 
@@ -621,9 +621,18 @@ def encode(c):
 # running a command on the real objects
 
 def py_w(w):
+    """quanta -> python number: k/4 as a float (exact); whole numbers are passed as int half of the time
+    (1 vs 1.0, 0 vs 0.0, 2 vs 2.0), chosen by a fixed rule so that replays are deterministic"""
     if w is None:
         return None
-    return 1 if w == 4 and False else w / 4     # floats k/4 (exact)
+    if w % 4 == 0 and (w // 4 + py_w.flip) % 2 == 0:
+        py_w.flip += 1
+        return w // 4
+    py_w.flip += 1
+    return w / 4
+
+
+py_w.flip = 0
 
 
 def apply_impl(objs, lab, c):
@@ -860,7 +869,7 @@ def gen_history(rng):
 
     def W(for_weighted):
         if for_weighted:
-            return rng.choice([None, 2, 4, 4, 6, 8, 3])
+            return rng.choice([None, 2, 4, 4, 6, 8, 3, 0])
         return rng.choice([None, None, 4, 4])
 
     def an_edge(add=False):
@@ -876,7 +885,7 @@ def gen_history(rng):
         es = [an_edge(True) for _ in range(rng.randint(0, 4))] if rng.random() < 0.8 else None
         ws = None
         if es is not None and rng.random() < (0.7 if weighted else 0.15):
-            ws = [rng.choice([2, 4, 6, 8]) for _ in es]
+            ws = [rng.choice([0, 2, 4, 6, 8]) for _ in es]
             if rng.random() < 0.1:
                 ws = ws[:-1] if ws else [4]
         mds = None
@@ -906,7 +915,7 @@ def gen_history(rng):
             es = [an_edge(True) for _ in range(rng.randint(0, 3))]
             ws = None
             if rng.random() < (0.6 if wtd else 0.08):
-                ws = [rng.choice([2, 4, 6, 8]) for _ in es]
+                ws = [rng.choice([0, 2, 4, 6, 8]) for _ in es]
                 if mal:
                     ws = ws + [4]
                 w_now[sl] = True
@@ -930,7 +939,7 @@ def gen_history(rng):
         elif r < 0.72:
             cmds.append(["addnodes", sl, [rng.randrange(U) for _ in range(rng.randint(0, 3))]])
         elif r < 0.77:
-            w = rng.choice([2, 4, 6, 8]) if wtd or mal else 4
+            w = rng.choice([0, 2, 4, 6, 8]) if wtd or mal else 4
             cmds.append(["setw", sl, an_edge(False), w])
         elif r < 0.80:
             cmds.append(["setnm", sl, rng.randrange(U), gen_meta(rng, False)])
@@ -967,11 +976,13 @@ def gen_history(rng):
 # executing one history against the three parties
 
 def pick_filters(rng, final):
+    """no filter + three filters drawn uniformly from ALL of size 0..6 / order 0..5 / both (boundary values such as
+    order=0, size=0, size=1 and values above the maximum size are as likely as the others); everything at the end"""
     if final:
         return list(ALL_FILTERS)
-    fs = [None, ("s", rng.randint(2, 5)), ("o", rng.randint(1, 4))]
-    if rng.random() < 0.3:
-        fs.append("b")
+    fs = [None]
+    for f in rng.sample(ALL_FILTERS[1:], 3):
+        fs.append(f)
     return fs
 
 
@@ -983,6 +994,7 @@ def run_history(ctx, drv, hist, rng, every=True):
     """returns (problems, stats); problems = list of (kind, what, upto) with kind in violation|disagree"""
     U, cmds = hist["U"], hist["cmds"]
     lab = Labeling(hist["kind"], U)
+    py_w.flip = 0
     objs, specs = {}, {}
     problems = []
     stats = {"accepted_removal": False, "reinsertion": False, "rejected": 0, "ops": 0, "merge": False}
@@ -1102,6 +1114,7 @@ def equivariance(ctx, hist, rng_seed):
     outs = []
     for kind in ("int", "shift", "str"):
         lab = Labeling(kind, hist["U"])
+        py_w.flip = 0
         objs = {}
         tr = []
         for c in hist["cmds"]:
@@ -1182,7 +1195,7 @@ def check_history(ctx, drv, hist, seed):
 
 def run(ctx):
     drv = ctx.driver() if ctx.model_available else None
-    n = ctx.scale(260, 9000)
+    n = ctx.scale(260, 7000)
     for i in range(n):
         hist = gen_history(ctx.rng)
         check_history(ctx, drv, hist, ctx.rng.randrange(1 << 30))
